@@ -259,12 +259,15 @@ func checkC05(c *Check) {
 			if !isC || callName(ci.Common()) != "dynamic" || !vCall("(route.Leaf).Handler")(ci.Common().Value) {
 				return
 			}
-			pm := strip(ci.Common().Args[2])
-			_, isMM := pm.(*ssa.MakeMap)
-			isMatch := vExtract(1, vCall("(route.Tree).Match"))(pm)
-			if !isMM && !isMatch {
-				ok = false
-			}
+			// every value the argument may stand for (results of a lookup step merged into one variable)
+			phiLeaves(ci.Common().Args[2], func(l ssa.Value) {
+				pm := strip(l)
+				_, isMM := pm.(*ssa.MakeMap)
+				isMatch := vExtract(1, vCall("(route.Tree).Match"))(pm)
+				if !isMM && !isMatch && !vNil(pm) {
+					ok = false
+				}
+			})
 		})
 		c.Cond(ok, p.FuncKey(sh)+":fresh-params", p.FuncPos(sh), "params handed to a chain are a fresh map or Match's result", "a chain receives a params map that is neither fresh nor the result of Match")
 	}
